@@ -1,4 +1,5 @@
 import GrVerif.Proofs.HeapStream3
+import GrVerif.Proofs.RunPasses
 import GrVerif.Model.Pass
 import GrVerif.Proofs.Reverse
 /-!
@@ -394,7 +395,7 @@ theorem reverse_wf {s : Seg} (h : WF s) (mark : Nat → Bool) : WF (s.reverseSlo
   exact ⟨l', h1, h2, h3⟩
 
 /-- **a pass with its direction step keeps the stream** -/
-theorem runPassDir_spec (p : PassT) (c : Ctx) (fuel : Nat) (h : WF c.seg) {c' : Ctx} (e : runPassDir p c fuel = .ok (some c')) :
+theorem runPassDir_spec (p : PassT) (c : Ctx) (fuel : Nat) (ar : Bool) (h : WF c.seg) {c' : Ctx} (e : runPassDir p c fuel ar = .ok (some c')) :
     WF c'.seg := by
   unfold runPassDir at e
   split at e
@@ -415,44 +416,19 @@ theorem runPassDir_spec (p : PassT) (c : Ctx) (fuel : Nat) (h : WF c.seg) {c' : 
 theorem runRange_spec (passes : Array PassT) (c : Ctx) (lo hi fuel : Nat) (h : WF c.seg) {c' : Ctx}
     (e : runRange passes c lo hi fuel = .ok (some c')) : WF c'.seg := by
   unfold runRange at e
-  simp only [] at e
-  revert e
-  have h0 : WF (c.beginRange (c.seg.numGlyphs * 64)).seg := h
-  revert h0
-  generalize (c.beginRange (c.seg.numGlyphs * 64)) = c0
-  generalize (List.range (hi - lo)) = ks
-  intro h0
-  have : ∀ (ks : List Nat) (acc : Except String (Option Ctx)), (∀ x, acc = .ok (some x) → WF x.seg) →
-      ∀ x, ks.foldl (fun (acc : Except String (Option Ctx)) k =>
-        match acc with
-        | .ok (some c1) =>
-          (match runPassDir (passes.getD (lo + k) default) c1 fuel with
-           | .ok (some c2) => if c2.seg.numGlyphs > 0 ∧ c2.seg.numGlyphs > c.seg.numGlyphs * 64 then .ok none else .ok (some c2)
-           | o => o)
-        | o => o) acc = .ok (some x) → WF x.seg := by
-    intro ks
-    induction ks with
-    | nil => intro acc ha x hx; exact ha x hx
-    | cons k rest ih =>
-      intro acc ha x hx
-      simp only [List.foldl_cons] at hx
-      refine ih _ ?_ x hx
-      intro y hy
-      split at hy
-      · rename_i c1
-        split at hy
-        · rename_i c2 hp
-          split at hy
-          · cases hy
-          · cases hy
-            exact runPassDir_spec _ c1 fuel (ha c1 rfl) hp
-        · rename_i o hno
-          exact absurd hy (by
-            intro hh
-            exact hno y (by rw [hh]))
-      · rename_i o hno
-        exact absurd hy (fun hh => hno y hh)
-  intro e
-  exact this ks (.ok (some c0)) (fun x hx => by cases hx; exact h0) c' e
+  exact runPasses_ind (fun c => WF c.seg) passes _ true lo hi fuel (fun k _ c1 c2 h1 e1 => runPassDir_spec _ c1 fuel true h1 e1) _ (show WF (c.beginRange _).seg from h) e
+
+/-- the bidi step keeps the stream -/
+theorem bidiStep_wf {c : Ctx} (h : WF c.seg) : WF (bidiStep c).seg := by
+  unfold bidiStep
+  split
+  · exact reverse_wf h _
+  · exact h
+
+/-- **a call of `Silf::runGraphite`, with the bidi step or without, keeps the stream** -/
+theorem runPhase_spec (passes : Array PassT) (bPass : Nat) (c : Ctx) (lo hi : Nat) (dobidi : Bool) (fuel : Nat) (h : WF c.seg) {c' : Ctx}
+    (e : runPhase passes bPass c lo hi dobidi fuel = .ok (some c')) : WF c'.seg :=
+  runPhase_ind (fun c => WF c.seg) passes bPass lo hi dobidi fuel (fun ar k _ _ c1 c2 h1 e1 => runPassDir_spec _ c1 fuel ar h1 e1)
+    (fun c l h => h) (fun c h => bidiStep_wf h) c h e
 
 end GrVerif.Pass
